@@ -55,7 +55,7 @@ pub fn run(run: &'static Run) {
          non-trivial = at least one lock held",
         alphabet.len(),
         if rich { ",sym->refs/tags/t" } else { "" },
-        if rich { " + RefLog::Only variants" } else { "" },
+        if rich { " + RefLog::Only variants of all one-edit transactions with expected Any/MustExistAndMatch(id0)" } else { " + 12 RefLog::Only probes (MustExist on refs/tags/t, MustExistAndMatch(id0) on refs/heads/a and through HEAD)" },
         if rich {
             "Immediately: all 32 subsets of the 5 lock files; backoff: all subsets of the involved ones"
         } else {
